@@ -374,7 +374,10 @@ pub fn magnitude_ladder() -> Vec<Value> {
     for s in ["127", "128", "255", "256", "32767", "32768", "65535", "65536", "2147483647", "2147483648", "4294967295", "4294967296",
               "9007199254740991", "9007199254740992", "9007199254740993", "9223372036854775807", "9223372036854775808",
               "18446744073709551615", "-128", "-129", "-32768", "-32769", "-2147483648", "-2147483649",
-              "-9007199254740993", "-9223372036854775808", "-9223372036854775807"] {
+              "-9007199254740993", "-9223372036854775808", "-9223372036854775807",
+              // integers that only the unsigned 64-bit representation holds, in pairs that are one double
+              "18446744073709551614", "9223372036854775809", "9223372036854775810", "10000000000000000000", "10000000000000000001", "12000000000000000000",
+              "-9007199254740992", "-9007199254740991", "9007199254740994"] {
         out.push(parse(s));
     }
     dedup(out)
